@@ -49,7 +49,8 @@ def parseLine (views : Views) (ws : List String) : Option (Views × Option TEv) 
     | ["inst", i, key, prio, tk, h, ttl, val, gr, mf, hh, cm, sttl] =>
       ev (.inst ⟨← parseNat i, key, ← parseInt prio, ← parseBool tk, ← parseNat h, ← parseNat ttl, ← parseNat val,
                  ← parseNat gr, ← parseNat mf, ← parseBool hh, ← parseBool cm, ← parseNat sttl⟩)
-    | ["hyp", a, b, c, d, f] => ev (.hyp (← parseBool a) (← parseBool b) (← parseBool c) (← parseBool d) (← parseBool f))
+    | ["hyp", a, b, c, d, f, ml, fe] =>
+      ev (.hyp (← parseBool a) (← parseBool b) (← parseBool c) (← parseBool d) (← parseBool f) (← parseNat ml) (← parseNat fe))
     | "call" :: op :: i :: "create" :: key :: vs => do
       let (v, r) ← parseVal views vs
       if !r.isEmpty then none
